@@ -7,6 +7,7 @@
 
 World *g_world = nullptr;
 Arena &thread_arena() { static thread_local std::unique_ptr<Arena> a; if (!a) a.reset(new Arena()); return *a; }
+thread_local DlFail g_dlfail;
 thread_local BFail g_bfail;   // per OS thread: a failure attached to one task's call must not be consumed by another's
 bool announce_ops = false;
 Cur &cur() { static thread_local Cur c; return c; }
@@ -381,8 +382,12 @@ static void op_create(World &W, const Json &op) {
     cur().api = "instance_create";
     size_t live0 = own::live();
     arm_bfail(W, op);
+    g_dlfail = DlFail();
+    if (op.has("dlfail")) { g_dlfail.sym_nth = op["dlfail"]["sym"].in(0); g_dlfail.open = op["dlfail"]["open"].in(0); }
     int d = liberasurecode_instance_create((ec_backend_id_t) c.be, &a);
     bool fired = disarm_bfail(W);
+    if (g_dlfail.fired) { fired = true; W.fault(g_dlfail.open || !op["dlfail"]["sym"].in(0) ? "LOADER_FAIL.dlopen" : "LOADER_FAIL.dlsym"); }
+    g_dlfail = DlFail();
     W.trace.add("create.ok", d > 0);
     bool expect_ok = op["expect"].in(1) != 0;
     if (fired) {
